@@ -567,6 +567,7 @@ package sam
 //@ func ToPairAlign spawns
 //@   modifies everything
 //@   after if#2: assert [c18.oneref] len(refs) == 1
+//@   before call:ReadEncodeAlignmentToList#1: assert [c02.reference.soft] arg(0) == ref && arg(1) == false
 //@   after if#3: assert [c18.window] 1 <= trimStart && trimStart <= trimEnd && trimEnd <= len(refSeq)
 //@   after assign:cWriteDone#1: assume [env.errors] forallint(k, envat(cErr, k) != nil)
 //@   ghost gErrSeen bool = false
@@ -601,6 +602,7 @@ package sam
 //@ func Variants spawns
 //@   modifies everything
 //@   after if#3: assert [c18.oneref] len(refs) == 1
+//@   before call:ReadEncodeAlignmentToList#1: assert [c11.reference.soft] arg(0) == refIn && arg(1) == false
 //@   # the rest of the orchestration in spawns mode (model and assumptions: see closest.Closest)
 //@   after assign:cWriteDone#1: assume [env.errors] forallint(k, envat(cErr, k) != nil)
 //@   ghost gErrSeen bool = false
@@ -850,5 +852,6 @@ package sam
 //@   before call:getOneLinePlusRef#2: assert [c02.record.rows.noins] arg(0) == line && sameslice(arg(1), ref) && arg(2) == false && omitIns
 //@   before call:blockToSeqPair#1: assert [c02.block] sameslice(arg(0).seqpairArray, seqs) && sameslice(arg(0).cigarArray, cigars) && sameslice(arg(0).posArray, positions) && sameslice(arg(1), ref) && len(seqs) == len(group.records)
 //@   before send#2: assert [c02.pair] pair.idx == group.idx
+//@   before send#2: assert [c11.pair.rows.own] freshslice(pair.ref) && freshslice(pair.query) && disjoint(pair.ref, pair.query)
 //@   before send#4: assert [c02.pair.noins] pair.idx == group.idx && sameslice(pair.ref, ref)
 //@   ensures len(sent(cPair)) == len(recv(cSR)) && forall(t, 0, len(recv(cSR)), sent(cPair)[t].idx == recv(cSR)[t].idx)
